@@ -100,6 +100,7 @@ func drain(r *mon.Result, bed *px.Bed, scripts *Scripts, clients []*rawcql.Clien
 	prev := -1
 	stable := 0
 	noFlush := map[int]bool{}
+	wedged := map[int]bool{} // clients whose own OPTIONS the proxy stopped answering
 	for round := 0; round < 60; round++ {
 		scripts.KillSilent()
 		evs := bed.Log.Snapshot()[mark:]
@@ -120,29 +121,47 @@ func drain(r *mon.Result, bed *px.Bed, scripts *Scripts, clients []*rawcql.Clien
 				}
 			}
 		}
-		// logical steps on every client with outstanding requests
+		// logical steps on every client with outstanding requests (the clients side by side: one that the proxy no longer
+		// answers at all costs a full time-out, and is left alone afterwards - its outstanding requests stay outstanding)
 		stepped := true
 		seen := map[int]bool{}
+		var swg sync.WaitGroup
+		var smu sync.Mutex
 		for k := range eo.Outstanding {
 			if seen[k.cl] {
 				continue
 			}
 			seen[k.cl] = true
-			if cl := byID[k.cl]; cl != nil && !cl.IsClosed() {
+			cl := byID[k.cl]
+			if cl == nil || cl.IsClosed() || wedged[k.cl] {
+				continue
+			}
+			swg.Add(1)
+			go func(id int, cl *rawcql.Client, flush bool) {
+				defer swg.Done()
 				if !ProgressSteps(cl, 50, 32000+int16(round%500)) {
+					smu.Lock()
 					stepped = false
+					wedged[id] = true
+					noFlush[id] = true
+					smu.Unlock()
+					return
 				}
 				// ... and a few forwarded round trips: OPTIONS are answered by the proxy itself, so on a loaded machine a hundred
 				// of them can complete while forwarded requests are still queued towards the backends; requests that travel
 				// the same way pace the verdict by the speed the proxy-backend pipeline really has
-				for q := 0; q < 5 && !noFlush[k.cl]; q++ {
+				for q := 0; q < 5 && flush; q++ {
 					ftok := fmt.Sprintf("%s%012x", fakecass.FlushTokenPrefix, atomic.AddInt64(&flushSeq, 1))
 					if _, err := cl.CallF(BuildRequest(cl.Version, 32600+int16(q), KQuery, true, ftok, primitive.ConsistencyLevelOne), 10*time.Second); err != nil {
-						noFlush[k.cl] = true // a flush request that is itself lost: no pacing for this client any more
+						smu.Lock()
+						noFlush[id] = true // a flush request that is itself lost: no pacing for this client any more
+						smu.Unlock()
+						flush = false
 					}
 				}
-			}
+			}(k.cl, cl, !noFlush[k.cl])
 		}
+		swg.Wait()
 		if !stepped {
 			// the client's own OPTIONS got no answer: either the client connection was closed or the proxy is wedged for
 			// this client; the latter shows as outstanding OPTIONS in the next round
@@ -189,8 +208,8 @@ func drain(r *mon.Result, bed *px.Bed, scripts *Scripts, clients []*rawcql.Clien
 		sort.Strings(ks)
 		dump := goroutineDump()
 		r.Violate(mon.Violation{Signature: fmt.Sprintf("C01/lost-reply/%s/%s", label, strings.Join(ks, "+")),
-			Detail: fmt.Sprintf("%d request(s) never answered although every backend attempt was answered or dropped and the client completed 2x50 further round trips (%v); e.g. client %d stream %d token %s attempts %s; stuck goroutines: %s",
-				len(eo.Outstanding), kinds, sample.Cl, sample.St, sample.Tok, describe(traces[sample.Tok]), stuckSummary(dump)),
+			Detail: fmt.Sprintf("%d request(s) never answered although every backend attempt was answered or dropped and the client completed 2x50 further round trips - or, for %d client connection(s), the proxy stopped answering anything at all, the client's own OPTIONS included, although the connection is open (%v); e.g. client %d stream %d token %s attempts %s; stuck goroutines: %s",
+				len(eo.Outstanding), len(wedged), kinds, sample.Cl, sample.St, sample.Tok, describe(traces[sample.Tok]), stuckSummary(dump)),
 			Scenario: scenario, Witness: map[string]interface{}{"history": historyOf(evs, sample.Cl, int16(sample.St), sample.Tok), "goroutines": dump}})
 	}
 }
